@@ -416,7 +416,29 @@ fn generate(cli: &Cli) -> Vec<Case> {
         script.push(Act::AwaitClose);
         sc.client.script = script;
         sc.client.deadline = Duration::from_secs(120);
-        out.push(Case { sc, class: format!("blind/{}/{}", b.intent.name(), word.join("+")), kind: Kind::Blind, intent: Some(b.intent), status_expected, ping, honest_enc_response: false });
+        // once with a status service that answers at once, once with one that takes two seconds (the
+        // rest of the burst is there long before the answer)
+        let mut slow = sc.clone();
+        slow.adapters.status_latency = Duration::from_secs(2);
+        out.push(Case { sc, class: format!("blind/{}/{}", b.intent.name(), word.join("+")), kind: Kind::Blind, intent: Some(b.intent), status_expected: status_expected.clone(), ping, honest_enc_response: false });
+        out.push(Case { sc: slow, class: format!("blind/{}/{}/status-service-2s", b.intent.name(), word.join("+")), kind: Kind::Blind, intent: Some(b.intent), status_expected, ping, honest_enc_response: false });
+    }
+    // the honest status exchange of a client that does not wait for the Status Response before it
+    // pings, against a status service that takes its time: one Status Response, one Pong
+    for (i, gap_ms) in [0u64, 300, 1_500].into_iter().enumerate() {
+        let mut rng = Rng::stream(cli.seed, 62_500 + i as u64);
+        let b = &bases[0];
+        let (mut sc, status_expected, ping) = base_scenario(&mut rng, b);
+        sc.adapters.status_latency = Duration::from_secs(2);
+        let mut script = vec![];
+        for a in &sc.client.script {
+            match a {
+                Act::AwaitPkt { name, .. } if *name == "StatusResponse" => script.push(Act::Sleep(Duration::from_millis(gap_ms))),
+                other => script.push(other.clone()),
+            }
+        }
+        sc.client.script = script;
+        out.push(Case { sc, class: format!("status/baseline/ping-{gap_ms}ms-behind-the-request/status-service-2s"), kind: Kind::Baseline, intent: Some(b.intent), status_expected, ping, honest_enc_response: false });
     }
     out
 }
